@@ -89,6 +89,12 @@ def build_item(repo, key, cfg, mutate=None):
         it.text = new
     it.vac_text = ''
     rules = list(cfg.get('rules', []))
+    if it.kind == 'fn' and cfg.get('default_rules', True):
+        # desugarings of constructs the verifier rejects, applied wherever they occur (no-ops otherwise), so that a
+        # harmless rewrite of the real code into these forms does not make a unit undecided
+        named = {(r if isinstance(r, str) else r[0]) for r in rules}
+        for dr in ('is-some-and', 'letchain-nest'):
+            if dr not in named: rules.append((dr, {'optional': True}))
     if cfg.get('pub', True) and it.kind in ('fn', 'const') and not it.text.lstrip().startswith('pub '):
         rules = rules + ['vis-pub']
     R.apply_rules(it, rules)
@@ -171,14 +177,20 @@ def assemble(unit, repo=None, mutate=None):
     ranges = {}    # key -> (first_line, last_line) 1-based in assembled text
     vac_ranges = {}
     used = set()
-    tl = []
-    for line in tmpl.split('\n'):
-        mi = re.match(r'\s*//@@include\s+(\S+)\s*$', line)
-        if mi:
-            with open(os.path.join(VERIF, 'units', mi.group(1)), encoding='utf-8') as f:
-                tl.extend(f.read().split('\n'))
-        else:
-            tl.append(line)
+    def expand(lines, depth=0):
+        out = []
+        for line in lines:
+            mi = re.match(r'\s*//@@include\s+(\S+)\s*$', line)
+            if mi:
+                if depth > 4: raise Undecided('//@@include nested too deeply at %s' % mi.group(1))
+                ip = os.path.join(VERIF, 'units', mi.group(1))
+                if not os.path.exists(ip): raise Undecided('//@@include file missing: %s' % mi.group(1))
+                with open(ip, encoding='utf-8') as f:
+                    out.extend(expand(f.read().split('\n'), depth + 1))
+            else:
+                out.append(line)
+        return out
+    tl = expand(tmpl.split('\n'))
     for line in tl:
         m = re.match(r'\s*//@@\s*(\S+)\s*$', line)
         if not m:
